@@ -212,10 +212,7 @@ func (b *builder) scenarios(seed uint64) []*scenario {
 		add(&scenario{Name: "full-upgrade-packages", Class: "full", Cfg: other.withPkgs(upgraded), world: w, Installed: inst})
 	}
 
-	// 9. fully initialised, same flags, nothing to change
-	add(&scenario{Name: "full-same-flags", Class: "full", Cfg: chartConv, world: fullChart.Clone()})
-
-	// 10. fully initialised; the user edited the default objects and installed packages from
+	// 9. fully initialised; the user edited the default objects and installed packages from
 	// registry-less sources under names of their own
 	{
 		w := fullChart.Clone()
@@ -248,31 +245,26 @@ func (b *builder) scenarios(seed uint64) []*scenario {
 			})})
 	}
 
-	// 11. packages from sources WITH a registry host, installed under names of the user's own
+	// 10. packages from sources WITH a registry host (and one registry-less source pinned by tag and
+	// digest), installed under names of the user's own
 	{
 		w := fullChart.Clone()
 		inst := []pkgObj{
 			{Kind: "Provider", Name: "my-aws", Source: "xpkg.upbound.io/crossplane-contrib/provider-aws:v1", Custom: true},
 			{Kind: "Configuration", Name: "my-net", Source: "ghcr.io/acme/configuration-net@" + digA, Custom: true},
 			{Kind: "Function", Name: "my-fn", Source: "registry.example.com:5000/acme/function-x:v1", Custom: true},
+			// a registry-less source pinned by tag AND digest
+			{Kind: "Provider", Name: "my-gcp", Source: "crossplane-contrib/provider-gcp:v0.1.0@" + digA, Custom: true},
 		}
 		seedPkgs(w, inst)
-		add(&scenario{Name: "packages-registry-host-custom-names", Class: "full:packages-custom-names", world: w, Installed: inst,
+		add(&scenario{Name: "packages-custom-names-host-or-tag+digest", Class: "full:packages-custom-names", world: w, Installed: inst,
 			Cfg: chartConv.withPkgs(map[string][]string{
-				"Provider":      {"xpkg.upbound.io/crossplane-contrib/provider-aws:v2"},
+				"Provider":      {"xpkg.upbound.io/crossplane-contrib/provider-aws:v2", "crossplane-contrib/provider-gcp:v0.2.0"},
 				"Configuration": {"ghcr.io/acme/configuration-net@" + digB},
 				"Function":      {"registry.example.com:5000/acme/function-x:v2"},
 			})})
 	}
 
-	// 12. a registry-less source pinned by tag AND digest, installed under a name of the user's own
-	{
-		w := fullChart.Clone()
-		inst := []pkgObj{{Kind: "Provider", Name: "my-gcp", Source: "crossplane-contrib/provider-gcp:v0.1.0@" + digA, Custom: true}}
-		seedPkgs(w, inst)
-		add(&scenario{Name: "package-tag+digest-custom-name", Class: "full:packages-custom-names", world: w, Installed: inst,
-			Cfg: chartConv.withPkgs(map[string][]string{"Provider": {"crossplane-contrib/provider-gcp:v0.2.0"}})})
-	}
 	return out
 }
 
